@@ -80,12 +80,13 @@ def write_files(spec, d):
 
 
 VARIANTS = {
-    'lammps': ['base', 'type_mapping_b', 'temperature', 'time_step', 'constant_lattice_false', 'atom_style_charge', 'coords_format_upper'],
+    'lammps': ['base', 'type_mapping_b', 'temperature', 'time_step', 'constant_lattice_false', 'atom_style_charge', 'coords_format_upper', 'temperature_close', 'time_step_close', 'numbers_as_int'],
     'vasprun': ['base', 'constant_lattice_false', 'tolerant_xml'],
-    'gromacs': ['base', 'temperature', 'constant_lattice_false'],
+    'gromacs': ['base', 'temperature', 'constant_lattice_false', 'temperature_close'],
 }
 # variants whose parse differs from 'base' (result or outcome) and which therefore must not share its cache
-DIFFERENT_PARSE = {'lammps': {'type_mapping_b', 'temperature', 'time_step', 'constant_lattice_false'}, 'vasprun': {'constant_lattice_false'}, 'gromacs': {'temperature', 'constant_lattice_false'}}
+DIFFERENT_PARSE = {'lammps': {'type_mapping_b', 'temperature', 'time_step', 'constant_lattice_false', 'temperature_close', 'time_step_close'}, 'vasprun': {'constant_lattice_false'},
+                   'gromacs': {'temperature', 'constant_lattice_false', 'temperature_close'}}
 
 
 def call(spec, files, variant, cache=None):
@@ -108,6 +109,12 @@ def call(spec, files, variant, cache=None):
             args['temperature'] = args['temperature'] + 100
         if variant == 'time_step':
             args['time_step'] = args['time_step'] * 2
+        if variant == 'temperature_close':  # numeric options that differ only slightly are still different options
+            args['temperature'] = args['temperature'] + 0.0004
+        if variant == 'time_step_close':
+            args['time_step'] = args['time_step'] + 0.0002
+        if variant == 'numbers_as_int' and float(args['temperature']).is_integer() and float(args['time_step']).is_integer():
+            args['temperature'], args['time_step'] = int(args['temperature']), int(args['time_step'])  # the same values in another numeric type
         if variant == 'constant_lattice_false':
             args['constant_lattice'] = False
         if variant == 'atom_style_charge':
@@ -125,6 +132,8 @@ def call(spec, files, variant, cache=None):
     args = dict(topology_file=files['topology_file'], coords_file=files['coords_file'], temperature=spec.get('temperature', 300.0))
     if variant == 'temperature':
         args['temperature'] = args['temperature'] + 100
+    if variant == 'temperature_close':
+        args['temperature'] = args['temperature'] + 0.0004
     if variant == 'constant_lattice_false':
         args['constant_lattice'] = False
     return gcall(Trajectory.from_gromacs, **args, **kw, allow=(Exception,))
@@ -428,7 +437,7 @@ def specs(draw, loaders=LOADERS):
     symbols = sorted(draw(st.lists(st.sampled_from(pool), min_size=N, max_size=N)), key=pool.index)
     lo, hi = draw(st.sampled_from([(0.01, 0.99), (0.01, 0.99), (-0.6, 1.6)])) if loader != 'gromacs' else (0.01, 0.99)  # unwrapped ions past a cell face
     frames = [[[round(draw(st.floats(lo, hi)), 4) for _ in range(3)] for _ in range(N)] for _ in range(T)]
-    spec = {'loader': loader, 'symbols': symbols, 'frames': frames, 'temperature': float(draw(st.sampled_from([100, 300, 650]))), 'time_step': float(draw(st.sampled_from([1.0, 2.0])))}
+    spec = {'loader': loader, 'symbols': symbols, 'frames': frames, 'temperature': float(draw(st.sampled_from([100, 300, 650]))), 'time_step': float(draw(st.sampled_from([1.0, 2.0, 0.001, 0.0002, 0.0005])))}
     if loader == 'gromacs':
         spec['lengths'] = [round(draw(st.floats(4, 9)), 3) for _ in range(3)]
     else:
@@ -612,7 +621,7 @@ class CacheMachine(LogMachine):
     def r_fault(self, kind, frac):
         self.step({'op': 'fault', 'kind': kind, 'frac': frac})
 
-    @rule(variant=st.sampled_from(['base', 'base', 'base', 'type_mapping_b', 'temperature', 'constant_lattice_false', 'tolerant_xml', 'time_step']))
+    @rule(variant=st.sampled_from(['base', 'base', 'base', 'type_mapping_b', 'temperature', 'constant_lattice_false', 'tolerant_xml', 'time_step', 'temperature_close', 'time_step_close', 'numbers_as_int']))
     def r_load(self, variant):
         self.step({'op': 'load', 'variant': variant})
 
